@@ -206,7 +206,7 @@ thread_local! {
     /// which of the equivalent ways of building the configuration is used (None: chosen from the program's seed)
     pub static CONFIG_PATH: std::cell::Cell<Option<u8>> = const { std::cell::Cell::new(None) };
 }
-pub const CONFIG_PATHS: u8 = 7;
+pub const CONFIG_PATHS: u8 = 8;
 
 /// The same configuration reached through different sequences of builder calls: what the
 /// archive is (layers, level, recipients, fresh secrets) must not depend on the route.
@@ -271,6 +271,20 @@ pub fn writer_config_path(p: &Program, pks: &[PublicKey], path: u8) -> ArchiveWr
                 c.enable_layer(Layers::COMPRESS);
             }
             c
+        }
+        7 => {
+            // recipients registered one call at a time
+            let mut c = ArchiveWriterConfig::new();
+            c.set_layers(want);
+            if comp {
+                c.with_compression_level(p.level).expect("level");
+            }
+            if enc {
+                for pk in pks {
+                    c.add_public_keys(std::slice::from_ref(pk));
+                }
+            }
+            return c;
         }
         6 => {
             // recipients and level given before the layers are chosen
